@@ -28,7 +28,7 @@ SKIP = {'vertices', 'boundary', 'holes', 'faces', 'plane', 'interpolated', 'colo
 def props_of(cls):
     out = []
     for name in dir(cls):
-        if name.startswith('_') or name in SKIP:
+        if name.startswith('_') or (name in SKIP and not (cls is Polyface3D and name == 'faces')):
             continue
         if isinstance(getattr(cls, name, None), property):
             out.append(name)
@@ -290,6 +290,10 @@ def check_history(ctx, label, maker, hist, tr, rprops):
             b = getattr(f, p)
         except Exception:
             continue
+        if p == 'faces' and isinstance(o, Polyface3D):
+            # the memoised Face3D objects: same point sets, normals and areas as the faces a fresh polyface builds from the vertices
+            canon = lambda fs: [(sorted(tuple(q) for q in fc.vertices), tuple(fc.normal), fc.area) for fc in fs]
+            a, b = canon(a), canon(b)
         if p in EDGE_PROPS and a is not None and b is not None:
             if p == 'edge_types':
                 # types go with indices: compare the (undirected edge, type) pairs
